@@ -86,6 +86,10 @@ struct UnusedVariableVisitor {
     /// Key is the interned symbol ID.
     let_removal_positions: FxHashMap<InternedSymbolId, Position>,
 
+    /// Is the next expression visited the last expression of its
+    /// block?
+    next_expr_is_block_tail: bool,
+
     method_this_type_hint: Option<TypeHint>,
 
     /// Type parameter tracking for the current function/method.
@@ -113,6 +117,7 @@ impl UnusedVariableVisitor {
             file_bindings: FxHashMap::default(),
             unused: vec![],
             let_removal_positions: FxHashMap::default(),
+            next_expr_is_block_tail: false,
             method_this_type_hint: None,
             type_param_info: vec![],
             unused_type_params: vec![],
@@ -530,6 +535,8 @@ impl Visitor for UnusedVariableVisitor {
     }
 
     fn visit_expr(&mut self, expr: &Expression) {
+        let is_block_tail = std::mem::take(&mut self.next_expr_is_block_tail);
+
         // Special handling for let expressions to track removal positions.
         if let Expression_::Let(dest, hint, value_expr) = &expr.expr_ {
             // Visit the expression before the destination, so we're not
@@ -550,6 +557,11 @@ impl Visitor for UnusedVariableVisitor {
 
             // Register removal positions for symbols in the destination.
             match dest {
+                LetDestination::Symbol(_) if is_block_tail => {
+                    // A `let` evaluates to Unit, so `{ let x = 1 }`
+                    // and `{ 1 }` are different when the value of the
+                    // block is used.
+                }
                 LetDestination::Symbol(symbol) => {
                     self.let_removal_positions
                         .insert(symbol.interned_id, removal_position);
@@ -608,7 +620,8 @@ impl Visitor for UnusedVariableVisitor {
     fn visit_block(&mut self, block: &Block) {
         self.push_scope();
 
-        for expr in &block.exprs {
+        for (i, expr) in block.exprs.iter().enumerate() {
+            self.next_expr_is_block_tail = i + 1 == block.exprs.len();
             self.visit_expr(expr);
         }
 
